@@ -234,6 +234,28 @@ func runC11(c *Ctx) {
 				usedOK = true
 			}
 		}
+		// the cursor advanced through a pointer to it: advance(&b.tail, amount) with `*cursor += n` inside
+		for _, d := range deepStoresTo(fn, spec.cur) {
+			q, viaPtr := d.Store.Addr.(*ssa.Parameter)
+			if !viaPtr {
+				continue
+			}
+			if bo, ok := stripConv(d.Store.Val).(*ssa.BinOp); ok && bo.Op == token.ADD {
+				isDeref := func(v ssa.Value) bool {
+					u, ok := stripConv(v).(*ssa.UnOp)
+					return ok && u.Op == token.MUL && u.X == ssa.Value(q)
+				}
+				var inc ssa.Value
+				if isDeref(bo.X) {
+					inc = bo.Y
+				} else if isDeref(bo.Y) {
+					inc = bo.X
+				}
+				if inc != nil && stripConv(d.translate(inc)) == am {
+					curOK = true
+				}
+			}
+		}
 		for _, a := range storesTo(fn, spec.cur) {
 			v := stripConv(a.Val)
 			if wc, ok := v.(*ssa.Call); ok && wc.Call.StaticCallee() != nil && isWrapHelper(wc.Call.StaticCallee(), size) && len(wc.Call.Args) == 2 {
